@@ -634,6 +634,26 @@ Proof.
     replace (SIZE_LIMIT <? from_le128 digits) with true by lia; reflexivity.
 Qed.
 
+(** ---------------------------------------------------------------- sender histories --- *)
+
+Lemma encode_sequence_lemma pb es : encode_all pb (filter (accepts pb) es) = Ok (send_all pb es).
+Proof.
+  induction es as [|e r IH]; [reflexivity|].
+  cbn [filter send_all]. unfold accepts at 1. destruct (encode pb e) as [b|x] eqn:E; [|exact IH].
+  cbn [encode_all]. rewrite E, IH. reflexivity.
+Qed.
+
+Lemma sender_history pb es chunks :
+  Forall wf (filter (accepts pb) es) -> concat chunks = send_all pb es -> Forall (fun c => c <> []) chunks ->
+  let s := feed_all pb init chunks in
+  st_outs s = filter (accepts pb) es /\ st_err s = None /\ st_stack s = [] /\ st_buf s = [].
+Proof.
+  intros W C F s.
+  destruct (any_split pb chunks F) as (H1 & H2 & H3).
+  rewrite C, feed_whole, (run_encoded_all pb _ _ W (encode_sequence_lemma pb es) []) in H1, H2, H3.
+  cbn in H1, H2, H3. destruct (H3 H2) as [H4 H5]. subst s. auto.
+Qed.
+
 Example wf_example :
   wf (SList [SInt (-5); SInt (2 ^ 447); SStr [108;105;115;116]; SFloat [64;9;33;251;84;68;45;24]; SList []; SList [SList [SInt 0]]]).
 Proof. cbn. unfold LARGEST_LONG, SIZE_LIMIT. repeat split; try lia; cbn; lia. Qed.
